@@ -3215,6 +3215,8 @@ iwrc iwkv_open(const struct iwkv_opts *opts, struct iwkv **iwkvp) {
     IW_WRITELV(wp, lv, iwkv->fmt_version);
     RCC(rc, finish, fsm->writehdr(fsm, 0, hdr, sizeof(hdr)));
     RCC(rc, finish, fsm->sync(fsm, 0));
+    // WAL: make the freshly created (empty) store recoverable before the first db creation / sync
+    RCC(rc, finish, iwal_savepoint_exl(iwkv, true));
   } else {
     off_t dbaddr; // first database address
     uint8_t hdr[KVHDRSZ];
